@@ -146,6 +146,10 @@ func (verify *VerifyServerController) handlePairVerifyFinish(in util.Container) 
 	verify.step = VerifyStepFinishResponse
 
 	data := in.GetBytes(TagEncryptedData)
+	if len(data) < 16 {
+		verify.reset()
+		return nil, fmt.Errorf("Encrypted data is too short (%d bytes)", len(data))
+	}
 	message := data[:(len(data) - 16)]
 	var mac [16]byte
 	copy(mac[:], data[len(message):]) // 16 byte (MAC)
